@@ -70,6 +70,7 @@ type fnEnc struct {
 	defs      map[string]string
 	callOrd   map[string]int
 	localAllocs []string // refs of non-escaping allocations
+	lockAtEntry string
 }
 
 type retInfo struct {
@@ -336,7 +337,13 @@ func (e *fnEnc) addrOf(lv *LValue) string {
 	if lv.Kind == "deref" && len(lv.Path) == 0 {
 		return lv.Ref
 	}
-	e.vc.note("interior address used as a value (%s) - abstracted to an opaque reference", lv.Key.Name)
+	if !strings.Contains(lv.Key.Sort, "S_sync_Mutex") {
+		e.vc.note("interior address used as a value (%s) - abstracted to an opaque reference", lv.Key.Name)
+	}
+	return e.addrOfQuiet(lv)
+}
+
+func (e *fnEnc) addrOfQuiet(lv *LValue) string {
 	fname := "addr!" + lv.Key.Name
 	args := []string{}
 	if lv.Ref != "" {
@@ -403,7 +410,7 @@ func (e *fnEnc) havoc(keyName string) {
 func (e *fnEnc) havocSummary(s *Summary, all bool) {
 	if all || (s != nil && s.All) {
 		for _, k := range e.vc.sortedKeyNames() {
-			if strings.HasPrefix(k, "ITER!") || k == "CLOCK" {
+			if strings.HasPrefix(k, "ITER!") || k == "CLOCK" || k == "LOCK!held" {
 				continue
 			}
 			old := e.cur[k]
